@@ -61,18 +61,20 @@ def handle : Handler
       match getMembership l k with
       | .error e => some (showErr e)
       | .ok m => some s!"ok {m.nCol} {showListList m.rows}") "bad-args"
-  | "c05.louvain", [nRow, nCol, nnz, fb, mk, nAgg, raws, flags, index, so, sh] => some <| Option.getD (do
+  | "c05.louvain", [n, m, ip, ix, dt, fb, modularity, nAgg, raws, flags, index, so, sh] => some <| Option.getD (do
+      let c ← csrRat? n m ip ix dt
       let nAgg ← nAgg.toInt?
       let raws ← intListList? raws
       let flags ← natList? flags
       let index ← natList? index
       let kernel := fun (count _n : Nat) => (raws.getD (count - 1) [], flags.getD (count - 1) 1 != 0)
-      match louvainEstimator argsortStable kernel nAgg raws.length (← nRow.toNat?) (← nCol.toNat?) (← nnz.toNat?)
-              (← bool? fb) (← bool? mk) index (← bool? so) (← bool? sh) with
+      match louvainOnMatrix argsortStable kernel nAgg raws.length (spOf c) c.nCol (← bool? fb) modularity index
+              (← bool? so) (← bool? sh) with
       | .error e => some (showErr e)
       | .ok none => some "fuel"
       | .ok (some (f, count)) => some s!"ok {count} {showFitted f}") "bad-args"
-  | "c05.leiden", [nRow, nCol, nnz, fb, mk, nAgg, raws, refs, flags, index, so, sh] => some <| Option.getD (do
+  | "c05.leiden", [n, m, ip, ix, dt, fb, modularity, nAgg, raws, refs, flags, index, so, sh] => some <| Option.getD (do
+      let c ← csrRat? n m ip ix dt
       let nAgg ← nAgg.toInt?
       let raws ← intListList? raws
       let refs ← intListList? refs
@@ -80,8 +82,8 @@ def handle : Handler
       let index ← natList? index
       let kernel := fun (count : Nat) (_ : List Nat) => (raws.getD (count - 1) [], flags.getD (count - 1) 1 != 0)
       let refine := fun (count : Nat) (_ : List Nat) => refs.getD (count - 1) []
-      match leidenEstimator argsortStable kernel refine nAgg raws.length (← nRow.toNat?) (← nCol.toNat?)
-              (← nnz.toNat?) (← bool? fb) (← bool? mk) index (← bool? so) (← bool? sh) with
+      match leidenOnMatrix argsortStable kernel refine nAgg raws.length (spOf c) c.nCol (← bool? fb) modularity index
+              (← bool? so) (← bool? sh) with
       | .error e => some (showErr e)
       | .ok none => some "fuel"
       | .ok (some (f, count)) => some s!"ok {count} {showFitted f}") "bad-args"
@@ -135,15 +137,16 @@ def handle : Handler
       | .error e => some (showErr e)
       | .ok k => some s!"ok {showList k.labels} {optShow k.labelsRow} {optShow k.labelsCol} {showList k.centers} {optShow k.centersRow} {optShowI k.centersCol}")
         "bad-args"
-  | "c05.kcenters_full", [nc, ni, mi, bip, nRow, nCol, pos, cs, ls, im] => some <| Option.getD (do
-      -- whole fit: the recorded centres of every restart are replayed as the random choices, the recorded
-      -- labels as the assignment of that restart
+  | "c05.kcenters_full", [nc, ni, mi, dir, fb, nRow, nCol, nnz, pos, cs, sc, im] => some <| Option.getD (do
+      -- whole fit from the shape of the input: the recorded centres of every restart are replayed as the random
+      -- choices, the recorded score matrices (`|`-separated) as the PageRank scores of that restart; routing,
+      -- refusals, the read-out of the labels and the bookkeeping are the model's
       let cs ← natListList? cs
-      let ls ← natListList? ls
+      let sc ← if sc == "-" then some [] else (sc.splitOn "|").mapM ratListList?
       let chooseOf := fun (i t : Nat) (_ : List Nat) => (cs.getD i []).getD t 0
-      let classify := fun (i : Nat) (_ : List Nat) => ls.getD i []
-      match kcentersFitFull (← nc.toInt?) (← ni.toInt?) (← mi.toInt?) (← bool? bip) (← nRow.toNat?) (← nCol.toNat?)
-              (← pos? pos) chooseOf classify (← im.toNat?) with
+      let scores := fun (i : Nat) (_ : List Nat) => sc.getD i []
+      match kcentersEstimator (← nc.toInt?) (← ni.toInt?) (← mi.toInt?) (← bool? dir) (← bool? fb) (← nRow.toNat?)
+              (← nCol.toNat?) (← nnz.toNat?) (← pos? pos) chooseOf scores (← im.toNat?) with
       | .error e => some (showErr e)
       | .ok (k, calls) => some s!"ok {calls} {showList k.labels} {optShow k.labelsRow} {optShow k.labelsCol} {showList k.centers} {optShow k.centersRow} {optShowI k.centersCol}")
         "bad-args"
@@ -168,6 +171,22 @@ def handle : Handler
       let ks := p.map fun i => key.getD i 0
       let sorted := (ks.zip (ks.drop 1)).all fun (a, b) => decide (a ≤ b)
       some (verdict (isPerm && sorted) s!"perm={isPerm} sorted={sorted}")) "bad-args"
+  | "c05.contract_scores", [n, k, sc] => some <| Option.getD (do
+      -- what the theorems assume of PageRank: one row of scores per node (and, here, one column per centre)
+      let n ← n.toNat?
+      let k ← k.toNat?
+      let sc ← ratListList? sc
+      some (verdict (sc.length == n && sc.all (·.length == k)) s!"rows={sc.length}")) "bad-args"
+  | "c05.contract_nomerge", [raw, flag] => some <| Option.getD (do
+      -- `NoMergeStops`: pairwise distinct labels out of the kernel (no merge) come with `increase <= tol_aggregation`
+      let raw ← intList? raw
+      let flag ← bool? flag
+      some (verdict (!((unique raw).length == raw.length) || flag))) "bad-args"
+  | "c05.contract_progress", [refined, flag] => some <| Option.getD (do
+      -- `LeidenProgress`: a round without stop flag leaves strictly fewer refined clusters than nodes
+      let refined ← intList? refined
+      let flag ← bool? flag
+      some (verdict (flag || decide ((unique refined).length < refined.length)))) "bad-args"
   | "c05.contract_leiden", [labels, refined] => some <| Option.getD (do
       -- `LeidenContract`: same length, and a refined cluster lies inside one cluster
       let l ← intList? labels
